@@ -83,15 +83,15 @@ func vcfProj(c Configuration) vkM {
 	}
 
 	return vkM{
-		"bundle": vcfEnum(c.BundlePolicy == BundlePolicyUnknown, c.BundlePolicy.String()),
-		"mux":    vcfEnum(c.RTCPMuxPolicy == RTCPMuxPolicyUnknown, c.RTCPMuxPolicy.String()),
-		"ident":  c.PeerIdentity,
-		"certs":  certs,
-		"pool":   int(c.ICECandidatePoolSize),
-		"policy": c.ICETransportPolicy.String(),
+		"bundle":  vcfEnum(c.BundlePolicy == BundlePolicyUnknown, c.BundlePolicy.String()),
+		"mux":     vcfEnum(c.RTCPMuxPolicy == RTCPMuxPolicyUnknown, c.RTCPMuxPolicy.String()),
+		"ident":   c.PeerIdentity,
+		"certs":   certs,
+		"pool":    int(c.ICECandidatePoolSize),
+		"policy":  c.ICETransportPolicy.String(),
 		"servers": servers,
-		"sem":    c.SDPSemantics.String(),
-		"dc":     c.AlwaysNegotiateDataChannels,
+		"sem":     c.SDPSemantics.String(),
+		"dc":      c.AlwaysNegotiateDataChannels,
 	}
 }
 
